@@ -45,6 +45,7 @@ def tu_list():
 
 def dump_tu(args):
     rel, incs = args
+    _SRC.clear()
     cmd = ["clang", "-std=c17", "-D_POSIX_C_SOURCE=200809L", "-DNDEBUG"] + ["-I" + i for i in incs] + [
         "-fsyntax-only", "-w", "-Xclang", "-ast-dump=json", os.path.join(vlib.REPO, rel)]
     p = subprocess.run(cmd, stdout=subprocess.PIPE, stderr=subprocess.PIPE)
@@ -580,6 +581,7 @@ def _static_initialiser(path, name, incs):
 
 
 def dispenser(incs):
+    _SRC.clear()                # source text cache of atomic_name: never across two states of the tree
     path = os.path.join(vlib.REPO, "src", "cimba.c")
     G = {"next": "cmg_next_trial_idx", "arr": "cmg_experiment_arr", "sz": "cmg_trial_struct_sz",
          "func": "cmg_trial_func", "total": "cmg_total_trials"}
@@ -587,100 +589,180 @@ def dispenser(incs):
     w = c2lean.find_function(c2lean.clang_ast(path, "worker_thread_func", incs), "worker_thread_func")
     loops = []
     _find_all(w, _is_loop, loops)
-    if len(loops) != 1 or loops[0]["kind"] != "WhileStmt" or not _is_true(loops[0]["inner"][0]):
-        raise Untranslatable("worker_thread_func: expected exactly one `while (true)` loop")
-    body = [s for s in loops[0]["inner"][1].get("inner", []) if s.get("kind") != "NullStmt"]
-    d = {"mode": None, "incr": None, "order": None}
-    pos = 0
-    # 1. fetch
-    s = body[pos]
-    if not (s.get("kind") == "DeclStmt" and len(s["inner"]) == 1 and s["inner"][0].get("kind") == "VarDecl"):
-        raise Untranslatable("worker loop: first statement is not the declaration of the fetched index")
-    idx = s["inner"][0]["name"]
-    init = _strip([c for c in s["inner"][0].get("inner", []) if "Comment" not in c.get("kind", "")][0])
-    if init.get("kind") == "AtomicExpr":
-        if atomic_name(init, path) != "__atomic_fetch_add" or len(init["inner"]) != 3:
-            raise Untranslatable("worker loop: atomic operation %s is not __atomic_fetch_add" % atomic_name(init, path))
-        # clang's child order: pointer, memory order, operand
-        init = {"inner": [None, init["inner"][0], init["inner"][2], init["inner"][1]]}
-        a0 = _strip(init["inner"][1])
-        if not (a0.get("kind") == "UnaryOperator" and a0.get("opcode") == "&" and _refname(a0["inner"][0]) == G["next"]):
-            raise Untranslatable("worker loop: __atomic_fetch_add is not applied to &%s" % G["next"])
-        d["incr"] = _nat_expr(init["inner"][2], {})
-        order = _strip(init["inner"][3])
-        d["order"] = order.get("value") if order.get("kind") == "IntegerLiteral" else None
-        # any memory order keeps the read-modify-write atomic; the order is recorded, not constrained
-        d["mode"] = "atomicFetchAdd"
-        pos += 1
-    elif _refname(init) == G["next"]:
-        # idx = next;  next = idx + k;   (two separate memory operations)
-        pos += 1
-        s2 = body[pos]
-        if not (s2.get("kind") == "BinaryOperator" and s2.get("opcode") == "=" and _refname(s2["inner"][0]) == G["next"]):
-            raise Untranslatable("worker loop: plain load of the counter not followed by a store to it")
-        rhs = _strip(s2["inner"][1])
-        if not (rhs.get("kind") == "BinaryOperator" and rhs["opcode"] == "+" and _refname(rhs["inner"][0]) in (idx, G["next"])):
-            raise Untranslatable("worker loop: store to the counter is not `index + k`")
-        d["incr"] = _nat_expr(rhs["inner"][1], {})
-        d["mode"] = "loadThenStore"
-        pos += 1
+    if len(loops) != 1:
+        raise Untranslatable("worker_thread_func: expected exactly one loop, found %d" % len(loops))
+    lp = loops[0]
+    # accepted spellings of the endless loop: while (true) / while (1), for (;;), do { ... } while (true)
+    if lp["kind"] == "WhileStmt" and _is_true(lp["inner"][0]):
+        lbody = lp["inner"][1]
+    elif lp["kind"] == "ForStmt" and all(not c or c.get("kind") is None for c in lp["inner"][:4]):
+        lbody = lp["inner"][4]
+    elif lp["kind"] == "ForStmt" and all(not c or c.get("kind") is None for c in lp["inner"][:2] + lp["inner"][3:4]) \
+            and lp["inner"][2] and _is_true(lp["inner"][2]):
+        lbody = lp["inner"][4]
+    elif lp["kind"] == "DoStmt" and _is_true(lp["inner"][1]):
+        lbody = lp["inner"][0]
     else:
-        raise Untranslatable("worker loop: the index is neither an atomic fetch-and-add nor a plain load of %s" % G["next"])
-    env = {idx: "idx", G["total"]: "total", G["arr"]: "base", G["sz"]: "sz"}
-    # 2. stop condition
-    s = body[pos]
-    if not (s.get("kind") == "IfStmt" and not s.get("hasElse")):
-        raise Untranslatable("worker loop: expected `if (...) break;` after the fetch")
-    brk = []
-    _find_all(s["inner"][1], lambda n: n.get("kind") == "BreakStmt", brk)
-    other = [c for c in (s["inner"][1].get("inner", []) if s["inner"][1].get("kind") == "CompoundStmt" else [s["inner"][1]])
-             if c.get("kind") != "BreakStmt"]
-    if len(brk) != 1 or other:
-        raise Untranslatable("worker loop: the stop branch is not a single `break`")
-    d["stop"] = _bool_expr(s["inner"][0], env)
-    pos += 1
-    # 3. element address
-    s = body[pos]
-    if not (s.get("kind") == "DeclStmt" and s["inner"][0].get("kind") == "VarDecl"):
-        raise Untranslatable("worker loop: expected the declaration of the element pointer")
-    trial = s["inner"][0]["name"]
-    d["addr"] = _nat_expr([c for c in s["inner"][0].get("inner", []) if "Comment" not in c.get("kind", "")][0], env)
-    pos += 1
-    # 4. optional: logger trial index
-    d["sets_idx"] = False
-    s = body[pos]
-    if s.get("kind") == "BinaryOperator" and s.get("opcode") == "=" and _refname(s["inner"][0]) == "cmi_logger_trial_idx":
-        if _refname(s["inner"][1]) != idx:
-            raise Untranslatable("worker loop: cmi_logger_trial_idx is assigned something else than the index")
-        d["sets_idx"] = True
-        pos += 1
-    # 5. the call
-    s = body[pos]
+        raise Untranslatable("worker_thread_func: the loop has a condition of its own (expected an endless loop left by `break` "
+                             "after the index has been fetched)")
 
-    def is_call_with_elem(c, through):
-        c = _strip(c) if c.get("kind") != "CompoundStmt" else c
-        if c.get("kind") == "CompoundStmt":
-            inner = [x for x in c.get("inner", [])]
-            calls = [x for x in inner if x.get("kind") == "CallExpr"]
-            if len(calls) != 1:
-                return False
-            c = calls[0]
-        if c.get("kind") != "CallExpr" or len(c["inner"]) != 2:
-            return False
+    def flat(n):
+        out = []
+        for c in (n.get("inner", []) if n.get("kind") == "CompoundStmt" else [n]):
+            if c.get("kind") == "CompoundStmt":
+                out += flat(c)
+            elif c.get("kind") != "NullStmt":
+                out.append(c)
+        return out
+    body = flat(lbody)
+    d = {"mode": None, "incr": None, "order": None, "stop": None, "addr": None, "sets_idx": False}
+    env = {G["total"]: "total", G["arr"]: "base", G["sz"]: "sz"}      # C name -> Lean expression (globals and pure locals)
+    declared = set()
+    idx = None                 # C name of the local holding the fetched index
+    pending_load = None        # loadThenStore: local that holds the plain load, store not yet seen
+    called = False
+
+    def fetch_of(e):
+        """('atomic', incr, order) if e is __atomic_fetch_add(&next, k, order); ('load',) if e is a plain read of next"""
+        e = _strip(e)
+        if e.get("kind") == "AtomicExpr":
+            if atomic_name(e, path) != "__atomic_fetch_add" or len(e["inner"]) != 3:
+                raise Untranslatable("worker loop: atomic operation %s is not __atomic_fetch_add" % atomic_name(e, path))
+            ptr, order, val = e["inner"]           # clang's child order: pointer, memory order, operand
+            a0 = _strip(ptr)
+            if not (a0.get("kind") == "UnaryOperator" and a0.get("opcode") == "&" and _refname(a0["inner"][0]) == G["next"]):
+                raise Untranslatable("worker loop: __atomic_fetch_add is not applied to &%s" % G["next"])
+            o = _strip(order)
+            return ("atomic", _nat_expr(val, {}), o.get("value") if o.get("kind") == "IntegerLiteral" else None)
+        if _refname(e) == G["next"]:
+            return ("load",)
+        return None
+
+    def mentions_next(n):
+        hits = []
+        _find_all(n, lambda x: x.get("kind") == "DeclRefExpr" and x.get("referencedDecl", {}).get("name") == G["next"], hits)
+        return bool(hits)
+
+    def bind(name, e):
+        """local `name` gets the value of expression e"""
+        nonlocal idx, pending_load
+        f = fetch_of(e)
+        if f is not None:
+            if idx is not None or pending_load is not None:
+                raise Untranslatable("worker loop: the shared counter is accessed more than once per iteration")
+            if d["stop"] is not None:
+                raise Untranslatable("worker loop: the bound is tested before the index is fetched")
+            if f[0] == "atomic":
+                idx, d["mode"], d["incr"], d["order"] = name, "atomicFetchAdd", f[1], f[2]
+                env[name] = "idx"
+            else:
+                pending_load = name
+            return
+        if mentions_next(e):
+            raise Untranslatable("worker loop: unexpected use of %s" % G["next"])
+        env[name] = _nat_expr(e, env)           # a pure local (hoisted array base, element pointer, ...)
+
+    def call_with_elem(c):
+        """the Lean address expression if c is `(*cmg_trial_func)(p)` / `cmg_trial_func(p)`, else None"""
+        cs = flat(c) if c.get("kind") == "CompoundStmt" else [c]
+        calls = [x for x in cs if _strip(x).get("kind") == "CallExpr"]
+        if len(calls) != 1 or len(cs) != 1:
+            return None
+        c = _strip(calls[0])
+        if len(c["inner"]) != 2:
+            return None
         callee = _strip(c["inner"][0])
         if callee.get("kind") == "UnaryOperator" and callee.get("opcode") == "*":
             callee = _strip(callee["inner"][0])
-        return _refname(callee) == through and _refname(c["inner"][1]) == trial
-    if s.get("kind") == "IfStmt":
-        cond = _strip(s["inner"][0])
-        ok = cond.get("kind") == "BinaryOperator" and cond["opcode"] == "!=" and _refname(cond["inner"][0]) == G["func"]
-        if not (ok and is_call_with_elem(s["inner"][1], G["func"])):
-            raise Untranslatable("worker loop: the common trial function is not called with the element pointer")
-    elif not is_call_with_elem(s, G["func"]):
-        raise Untranslatable("worker loop: the trial function is not called with the element pointer")
-    pos += 1
-    if pos != len(body):
-        raise Untranslatable("worker loop: %d unexpected trailing statement(s)" % (len(body) - pos))
+        if _refname(callee) != G["func"]:
+            return None
+        try:
+            return _nat_expr(c["inner"][1], env)
+        except Untranslatable:
+            return None
+
+    for s in body:
+        k = s.get("kind")
+        if called:
+            raise Untranslatable("worker loop: statement(s) after the call of the trial function")
+        if k == "DeclStmt":
+            for v in s["inner"]:
+                if v.get("kind") != "VarDecl":
+                    raise Untranslatable("worker loop: declaration kind %s" % v.get("kind"))
+                ini = [c for c in v.get("inner", []) if "Comment" not in c.get("kind", "") and not c.get("kind", "").endswith("Attr")]
+                declared.add(v["name"])
+                if ini:
+                    bind(v["name"], ini[0])
+        elif k == "BinaryOperator" and s.get("opcode") == "=":
+            lhs = _refname(s["inner"][0])
+            if lhs in declared:
+                bind(lhs, s["inner"][1])
+            elif lhs == G["next"]:
+                # second half of a non-atomic fetch: next = <loaded> + k
+                rhs = _strip(s["inner"][1])
+                if pending_load is None or not (rhs.get("kind") == "BinaryOperator" and rhs["opcode"] == "+"
+                                                and _refname(rhs["inner"][0]) in (pending_load, G["next"])):
+                    raise Untranslatable("worker loop: store to the counter is not `loaded index + k` right after a plain load")
+                if d["stop"] is not None:
+                    raise Untranslatable("worker loop: the bound is tested between the load and the store of the counter")
+                idx, d["mode"], d["incr"] = pending_load, "loadThenStore", _nat_expr(rhs["inner"][1], {})
+                env[idx] = "idx"
+                pending_load = None
+            elif lhs == "cmi_logger_trial_idx":
+                if idx is None or _nat_expr(s["inner"][1], env) != "idx":
+                    raise Untranslatable("worker loop: cmi_logger_trial_idx is assigned something else than the fetched index")
+                d["sets_idx"] = True
+            else:
+                raise Untranslatable("worker loop: assignment to %s" % lhs)
+        elif k == "IfStmt":
+            parts = s["inner"]
+            brk = []
+            _find_all(parts[1], lambda n: n.get("kind") == "BreakStmt", brk)
+            if brk:
+                # the bound test: `if (<stop>) break;`
+                if flat(parts[1]) != brk or len(brk) != 1 or s.get("hasElse"):
+                    raise Untranslatable("worker loop: the stop branch is not a single `break`")
+                if idx is None:
+                    raise Untranslatable("worker loop: the bound is tested before the index is fetched")
+                if d["stop"] is not None:
+                    raise Untranslatable("worker loop: two stop conditions")
+                if mentions_next(parts[0]):
+                    raise Untranslatable("worker loop: the stop condition reads %s again instead of testing the fetched index" % G["next"])
+                d["stop"] = _bool_expr(parts[0], env)
+            else:
+                # `if (func != NULL) call else <per-trial function>`, or the same with the test inverted and the branches swapped
+                cond = _strip(parts[0])
+                neg = False
+                while cond.get("kind") == "UnaryOperator" and cond.get("opcode") == "!":
+                    neg = not neg
+                    cond = _strip(cond["inner"][0])
+                if cond.get("kind") == "BinaryOperator" and cond["opcode"] in ("!=", "==") and G["func"] in (
+                        _refname(cond["inner"][0]), _refname(cond["inner"][1])):
+                    common_is_then = (cond["opcode"] == "!=") != neg
+                elif _refname(cond) == G["func"]:
+                    common_is_then = not neg
+                else:
+                    raise Untranslatable("worker loop: unexpected `if` (neither the bound test nor the test of %s)" % G["func"])
+                branch = parts[1] if common_is_then else (parts[2] if s.get("hasElse") else None)
+                addr = call_with_elem(branch) if branch is not None else None
+                if addr is None:
+                    raise Untranslatable("worker loop: the common trial function is not called with the element pointer")
+                d["addr"] = addr
+                called = True
+        elif _strip(s).get("kind") == "CallExpr":
+            addr = call_with_elem(s)
+            if addr is None:
+                raise Untranslatable("worker loop: the trial function is not called with the element pointer")
+            d["addr"] = addr
+            called = True
+        else:
+            raise Untranslatable("worker loop: statement kind %s" % k)
+    if idx is None or d["mode"] is None:
+        raise Untranslatable("worker loop: no fetch of %s found" % G["next"])
+    if d["stop"] is None:
+        raise Untranslatable("worker loop: the fetched index is not tested against the number of trials before the call")
+    if not called:
+        raise Untranslatable("worker loop: the trial function is not called")
     d["worker_ast"] = stable_hash(w)
 
     # ---- cimba_run_experiment ------------------------------------------------
